@@ -6,13 +6,15 @@ set -u
 what="$1"; shift; shift
 cd /repo || exit 2
 if ! git diff --quiet HEAD; then echo "/repo working tree is dirty" >&2; exit 2; fi
+restore() { git -C /repo reset -q --hard HEAD; git -C /repo clean -fdq; }
+trap restore EXIT
 if [ -f "$what" ]; then
   git apply "$what" || { echo "patch does not apply" >&2; exit 2; }
 else
-  git show "$what" | git apply -R -3 2>/dev/null || git show "$what" | git apply -R -C1 || { echo "cannot revert $what" >&2; exit 2; }
+  git show "$what" | git apply -R 2>/dev/null || { restore; git show "$what" | git apply -R -C1 2>/dev/null; } || { restore; git show "$what" | git apply -R -3 2>/dev/null; } \
+    || { echo "cannot revert $what (conflicts with later commits)" >&2; exit 2; }
+  if git -C /repo diff --name-only --diff-filter=U | grep -q .; then echo "revert of $what conflicts" >&2; exit 2; fi
 fi
 cd /verif
 "$@"
-rc=$?
-git -C /repo reset -q --hard HEAD && git -C /repo clean -fdq
-exit $rc
+exit $?
